@@ -7,6 +7,9 @@
 //!        is expanded, each request's effect is undone by restoring the public state fields, the
 //!        store and the clock captured before it.  One ndjson row per state with compact edges
 //!        <<to, request index, ok, flag>>.  No property logic here: TLC judges.
+//!   payments conc --cases FILE --out FILE [--fee U] [--pct P]
+//!        concurrency leg: for each case (prefix, a, b) the sequential outcomes a;b and b;a and one
+//!        concurrent run per (held request, lock acquisition it is held before); see `conc`.
 //!   payments run --seqs FILE --out FILE [--fee U] [--pct P]
 //!        replays request sequences (TLC-simulated behaviours, replay files) on a fresh node per
 //!        sequence and records one step record per request.
@@ -186,6 +189,23 @@ impl World {
         let op = r["op"].as_str().unwrap();
         let node = &self.fx.node;
         let res: Result<Result<Value, Status>, String> = catch(|| match op {
+            // concurrency leg: the commitment number was fixed at the start state (`resolve`), the
+            // counterparty revocation was supplied before the race (`settle`)
+            "SignCp" if r.get("n").is_some() => {
+                let cc = self.chan(r["ch"].as_str().unwrap());
+                let (off, rcv) = concretize(&r["c"]);
+                self.sign_cp(cc, r["n"].as_u64().unwrap(), off, rcv)
+            }
+            "ValidateHolder" if r.get("n").is_some() => {
+                let cc = self.chan(r["ch"].as_str().unwrap());
+                let (off, rcv) = concretize(&r["c"]);
+                self.validate_holder(cc, r["n"].as_u64().unwrap(), off, rcv)
+            }
+            "Revoke" if r.get("n").is_some() => {
+                let cc = self.chan(r["ch"].as_str().unwrap());
+                let n = r["n"].as_u64().unwrap();
+                node.with_channel(&cc.channel_id, |chan| chan.revoke_previous_holder_commitment(n)).map(|_| json!({}))
+            }
             "SignCp" => {
                 let cc = self.chan(r["ch"].as_str().unwrap());
                 let (off, rcv) = concretize(&r["c"]);
@@ -272,6 +292,32 @@ impl World {
             Ok(Err(st)) => json!({"ok": false, "flag": -1,
                                    "err": format!("{:?}: {}", st.code(), st.message().chars().take(100).collect::<String>())}),
             Err(p) => json!({"ok": false, "flag": -1, "err": format!("PANIC: {}", p.chars().take(100).collect::<String>())}),
+        }
+    }
+
+    /// fix the commitment number a channel request will carry, as seen in the current state
+    fn resolve(&self, r: &Value) -> Value {
+        let mut r = r.clone();
+        if let Some(ch) = r.get("ch").and_then(|c| c.as_str()) {
+            let es = self.estate(&self.chan(ch).channel_id);
+            match r["op"].as_str().unwrap() {
+                "SignCp" => r["n"] = json!(es.next_counterparty_commit_num),
+                "ValidateHolder" | "Revoke" => r["n"] = json!(es.next_holder_commit_num),
+                _ => {}
+            }
+        }
+        r
+    }
+
+    /// every counterparty revokes the commitment before its current one (outstanding after a SignCp)
+    fn settle(&self) {
+        for cc in &self.ccs {
+            let es = self.estate(&cc.channel_id);
+            let n = es.next_counterparty_commit_num;
+            if n >= 2 && es.next_counterparty_revoke_num + 2 == n {
+                let sk = tree_secret(&TREE_A, n - 2);
+                self.fx.node.with_channel(&cc.channel_id, |chan| chan.validate_counterparty_revocation(n - 2, &sk)).expect("settle");
+            }
         }
     }
 
@@ -625,13 +671,107 @@ fn run_seqs() {
     println!("{}", json!({"sequences": nseq, "steps": n}));
 }
 
+/// Concurrency leg: pairs of requests on one real node under imposed schedules (one thread held
+/// before each of its lock acquisitions in turn), with the sequential outcomes a;b and b;a of the
+/// implementation itself as baselines.  TLC (ConcPayments.tla) judges.
+fn conc() {
+    use vls_verif_harness::sched::{count_acquisitions, run_pair_held};
+    let text = std::fs::read_to_string(arg("cases").unwrap()).unwrap();
+    let out = arg("out").unwrap();
+    let mut o = NdJson::create(&out);
+    let mut oc = NdJson::create(&format!("{}.cases", out));
+    let strip = |v: &Value| json!({"ok": v["ok"], "flag": v["flag"]});
+    let mut runs = 0u64;
+    let mut ncases = 0u64;
+    for line in text.lines() {
+        if line.trim().is_empty() {
+            continue;
+        }
+        // {"id": n, "chans": [...], "hashes": [...], "prefix": [...], "a": req, "b": req}
+        let case: Value = serde_json::from_str(line).unwrap();
+        let ci = case["id"].as_u64().unwrap();
+        let cfg = read_cfg(&case);
+        let prefix: Vec<Value> = case["prefix"].as_array().unwrap().clone();
+        let start = |record: Option<&mut Vec<Value>>| -> World {
+            let mut w = World::new(&cfg);
+            let mut rec = record;
+            for r in &prefix {
+                let pre = if rec.is_some() { w.project() } else { Value::Null };
+                let resp = if r["op"] == "Restart" {
+                    match w.restart() {
+                        Ok(w2) => {
+                            w = w2;
+                            json!({"ok": true, "flag": -1})
+                        }
+                        Err(_) => json!({"ok": false, "flag": -1}),
+                    }
+                } else {
+                    w.apply(r)
+                };
+                if let Some(v) = rec.as_mut() {
+                    v.push(json!({"pre": pre, "req": r, "resp": strip(&resp), "post": w.project()}));
+                }
+            }
+            w.settle();
+            w
+        };
+        let mut steps = vec![];
+        let w0 = start(Some(&mut steps));
+        let pre = w0.project();
+        let reqs = [w0.resolve(&case["a"]), w0.resolve(&case["b"])];
+        oc.put(&json!({"case": ci, "steps": steps}));
+        let mut nacq = [0usize; 2];
+        for i in 0..2 {
+            let w = start(None);
+            nacq[i] = count_acquisitions(|| {
+                w.apply(&reqs[i]);
+            });
+        }
+        let mut seqs = vec![];
+        for order in [[0usize, 1usize], [1, 0]] {
+            let w = start(None);
+            let r1 = w.apply(&reqs[order[0]]);
+            let r2 = w.apply(&reqs[order[1]]);
+            let (ra, rb) = if order[0] == 0 { (r1, r2) } else { (r2, r1) };
+            seqs.push(json!({"ra": strip(&ra), "rb": strip(&rb), "post": w.project()}));
+        }
+        for held in 0..2usize {
+            for k in 0..=nacq[held] {
+                let w = Arc::new(start(None));
+                let w2 = w.clone();
+                let rq = reqs.clone();
+                let oc2 = run_pair_held(Arc::new(move |i: usize| w2.apply(&rq[i])), held, k);
+                if oc2.stuck {
+                    o.put(&json!({"case": ci, "held": held, "k": k, "stuck": true, "pre": pre, "a": reqs[0], "b": reqs[1],
+                                  "ra": {"ok": false, "flag": -1}, "rb": {"ok": false, "flag": -1}, "post": pre,
+                                  "sab": seqs[0], "sba": seqs[1]}));
+                    o.finish();
+                    oc.finish();
+                    println!("{}", json!({"runs": runs, "cases": ncases, "stuck": true}));
+                    std::process::exit(0);
+                }
+                o.put(&json!({"case": ci, "held": held, "k": k, "stuck": false, "other_ran_through": oc2.other_ran_through,
+                              "pre": pre, "a": reqs[0], "b": reqs[1],
+                              "ra": strip(oc2.results[0].as_ref().unwrap()), "rb": strip(oc2.results[1].as_ref().unwrap()),
+                              "post": w.project(), "sab": seqs[0], "sba": seqs[1]}));
+                runs += 1;
+            }
+        }
+        ncases += 1;
+    }
+    o.finish();
+    oc.finish();
+    println!("{}", json!({"runs": runs, "cases": ncases, "stuck": false}));
+}
+
 fn main() {
     quiet_panics();
     match std::env::args().nth(1).unwrap_or_default().as_str() {
         "explore" => explore(),
         "run" => run_seqs(),
+        "conc" => conc(),
         _ => {
-            eprintln!("usage: payments explore|run ...");
+            eprintln!("usage: payments explore|run|conc ...");
             std::process::exit(2);
         }
     }
